@@ -8,7 +8,7 @@
    Comparison `d op k` converts both sides to the LEFT type, i.e. the written value is rounded to the column's scale
    (expression/comparison.go); `d * k op m` is exact decimal arithmetic.
    Decimal values are integers in hundredths (written) and tenths (stored). *)
-From Coq Require Import List ZArith Bool String.
+From Coq Require Import List ZArith Bool String Lia Arith.
 Import ListNotations.
 Open Scope Z_scope.
 
@@ -130,3 +130,59 @@ Definition sres_ok (chks : list scheck) (r : sres) : Prop :=
   | SStored s g _ => forallb (scheck_holds s) chks = true /\ g = Z.of_nat (String.length s)
   | _ => True
   end.
+
+(* ---------- what holds and what does not ---------- *)
+Close Scope string_scope.
+Open Scope Z_scope.
+
+(* UPDATE converts before the checks: whatever it stores satisfies every CHECK (DECIMAL and VARCHAR, IGNORE or not) *)
+Lemma decimal_update_ok p chks ign old h : dres_ok chks (dexec p chks (DUpd ign old h)).
+Proof.
+  cbn. destruct (negb (d_in_range p (round_half_away h)) && negb ign); cbn; auto.
+  match goal with |- context [if ?v =? old then _ else _] => destruct (v =? old) end; cbn; auto.
+  match goal with |- context [forallb ?f chks] => destruct (forallb f chks) eqn:E end; cbn; auto.
+  destruct ign; cbn; auto.
+Qed.
+
+Lemma varchar_update_ok n chks ign old s : sres_ok chks (sexec n chks (SUpd ign old s)).
+Proof.
+  cbn. destruct (negb (String.length s <=? n)%nat && negb ign); cbn; auto.
+  match goal with |- context [if String.eqb ?v old then _ else _] => destruct (String.eqb v old) end; cbn; auto.
+  match goal with |- context [forallb ?f chks] => destruct (forallb f chks) eqn:E end; cbn; auto.
+  destruct ign; cbn; auto.
+Qed.
+
+(* INSERT of a value that needs no conversion (one fractional digit, in range; a string that fits) is fine too *)
+Lemma decimal_insert_exact_ok p chks ign v :
+  d_in_range p v = true -> dres_ok chks (dexec p chks (DIns ign (v * 10))).
+Proof.
+  intros Hr. cbn.
+  assert (Hv : round_half_away (v * 10) = v).
+  { unfold round_half_away. destruct (0 <=? v * 10) eqn:E.
+    - apply Z.leb_le in E. rewrite <- (Z.div_unique_pos (v * 10 + 5) 10 v 5); lia.
+    - apply Z.leb_gt in E. rewrite <- (Z.div_unique_pos (- (v * 10) + 5) 10 (- v) 5); lia. }
+  destruct (forallb (dcheck_written (v * 10)) chks) eqn:E; [|destruct ign; exact I].
+  rewrite Hv, Hr. cbn. exact E.
+Qed.
+
+Lemma varchar_insert_fits_ok n chks ign s :
+  (String.length s <= n)%nat -> sres_ok chks (sexec n chks (SIns ign s)).
+Proof.
+  intros Hl. cbn. destruct (forallb (scheck_holds s) chks) eqn:E; [|destruct ign; exact I].
+  apply Nat.leb_le in Hl. rewrite Hl. cbn. auto.
+Qed.
+
+(* DECIMAL(3,1), CHECK (d * 2 < 20): INSERT 9.96 stores 10.0 *)
+Lemma decimal_rounding_witness :
+  dexec 3 [DMulCmp 2 DLt 20] (DIns false 996) = DStored 100 0 /\ ~ dres_ok [DMulCmp 2 DLt 20] (DStored 100 0).
+Proof. split; [vm_compute; reflexivity|cbn; discriminate]. Qed.
+
+(* DECIMAL(3,1), CHECK (d <> 0): INSERT IGNORE -1000.50 stores 0.0 *)
+Lemma decimal_ignore_range_witness :
+  dexec 3 [DCmp DNe 0] (DIns true (-100050)) = DStored 0 1 /\ ~ dres_ok [DCmp DNe 0] (DStored 0 1).
+Proof. split; [vm_compute; reflexivity|cbn; discriminate]. Qed.
+
+(* VARCHAR(3), CHECK (s <> 'abc'): INSERT IGNORE 'abcd' stores 'abc' with the generated length 4 *)
+Lemma varchar_truncate_witness :
+  sexec 3 [SNe "abc"] (SIns true "abcd") = SStored "abc" 4 1 /\ ~ sres_ok [SNe "abc"] (SStored "abc" 4 1).
+Proof. split; [vm_compute; reflexivity|cbn; intros [H _]; discriminate]. Qed.
